@@ -50,6 +50,10 @@ func styleLine(r *rand.Rand, s string) docLine {
 
 // noise lines that must NOT be settings
 func noiseLine(r *rand.Rand, decoy string) docLine {
+	if r.Intn(40) == 0 {
+		// a very long prose line (> 64 KiB): the lines after it are still settings
+		return docLine{"// " + strings.Repeat("long prose ", 7000) + "\n", ""}
+	}
 	switch r.Intn(7) {
 	case 0:
 		return docLine{"// prose that mentions goverter:" + decoy + " in the middle of a line\n", ""}
